@@ -7,7 +7,7 @@
    the plain round trip covers); reader/cache behaviour on histories of a foreign sender is checked by evaluation on
    witnesses and by the correspondence run (partial). *)
 From EDP Require Import Base.Bytes Term.Term Gen.Tags Gen.DecoderArms Codec.Encode Codec.Decode Codec.Norm Codec.DistHeader
-  Codec.RoundTripC Codec.DistHeaderFacts Order.Cmp.
+  Codec.RoundTripC Codec.DistHeaderFacts Codec.AtomCacheFacts Order.Cmp.
 
 (* beyond the header's limit of 255 references encoding reports an error, whatever the terms *)
 Theorem C14_too_many_atoms : forall order ts, 255 < len order -> encode_multi order ts = HTooManyAtoms (len order).
@@ -122,5 +122,47 @@ Example C14_read_back_premises :
   order <> [] /\ len order = 255 /\ forallb utf8_valid order = true /\ existsb (fun a => 65535 <? len a) order = false /\
   wf (TTuple [TInt 2; TAtom (repeat 76 300); TAtom [97; 55; 48]]) = true.
 Proof. cbv zeta. split; [discriminate|]. vm_compute. repeat split. Qed.
+
+(* a header of a conforming foreign sender (new entries and references to older ones in any of the eight segments, at
+   any header position; long or short length fields): the reader's reference list is the list of atoms the sender
+   meant, and its cache follows the sender's *)
+Theorem C14_sender_header_read : forall cfg sc es long l body,
+  agree (d_cache cfg) sc -> (length es <= 255)%nat -> Forall (e_ok long) es -> meant sc es = Some l ->
+  decode_with_atom_cache cfg long_of_coded (tag_version :: tag_dist_header :: sender_header es long ++ body) =
+    after_hdr cfg (length (sender_header es long ++ body) + 3 + d_extra_fuel cfg) (fold_left push es (d_cache cfg)) l body.
+Proof. exact sender_header_read. Qed.
+
+(* every history of such messages on one connection: each message is read as the terms the sender encoded, every
+   cached-atom reference resolved to the atom the sender meant — creation, re-use in later messages, overwrites *)
+Theorem C14_history_resolved : forall cfg kc ki ms rc sc,
+  d_arms cfg = owned_arms -> d_kcmp cfg = kc -> d_kinsert cfg = ki ->
+  agree rc sc -> history_ok kc ki sc ms ->
+  exists frames, sender_run sc ms = Some frames /\
+    reader_run cfg rc frames = map (fun m => HDOk (norm (m_ctl m)) (option_map norm (m_pl m))) ms.
+Proof. intros cfg kc ki ms rc sc Ha Hk Hi. exact (history_read cfg Ha kc ki Hk Hi ms rc sc). Qed.
+
+(* the premises are met by the history of the witness above: create in segment 3, refer to it from another
+   position next to a new entry, overwrite the slot *)
+Definition hist3 : list smsg :=
+  [ {| m_es := [ENew 3 7 [111; 107]]; m_long := false; m_ctl := TAtom [111; 107]; m_pl := None |};
+    {| m_es := [ENew 0 9 [120]; EOld 3 7]; m_long := false; m_ctl := TTuple [TAtom [120]; TAtom [111; 107]]; m_pl := None |};
+    {| m_es := [ENew 3 7 [122]]; m_long := false; m_ctl := TAtom [122]; m_pl := None |} ].
+Ltac c14_nle := vm_compute; discriminate.
+Ltac c14_nlt := vm_compute; reflexivity.
+Ltac c14_conj := repeat match goal with |- _ /\ _ => split end.
+Example C14_history_premises :
+  history_ok cmp_owned map_insert [] hist3 /\
+  sender_run [] hist3 = Some [[131; 68; 1; 11; 7; 2; 111; 107; 82; 0]; [131; 68; 2; 56; 0; 9; 1; 120; 7; 104; 2; 82; 0; 82; 1];
+                              [131; 68; 1; 11; 7; 1; 122; 82; 0]].
+Proof.
+  split; [|vm_compute; reflexivity].
+  cbn [history_ok hist3]. unfold conform, terms_of. cbn [m_es m_long m_ctl m_pl length fold_left push].
+  c14_conj; try exact I; try lia.
+  all: try match goal with |- meant _ _ <> None => vm_compute; discriminate end.
+  all: repeat match goal with |- Forall _ _ => constructor end; c14_conj.
+  all: try match goal with |- wf _ = true => vm_compute; reflexivity end.
+  all: try match goal with |- e_ok _ _ => cbn [e_ok]; unfold atom_fits; c14_conj; try c14_nlt; try c14_nle; try (intros _; c14_nle) end.
+  all: cbn [rt_ok]; unfold atom_ok; c14_conj; try exact I; try c14_nle.
+Qed.
 
 Check C14_too_many_atoms.
